@@ -37,7 +37,9 @@ def gen_cases(ctx):
         yield dict(n=n, batch=rng.choice([[], [], [2], [2, 2]]), dtype=rng.choice(["f64", "f64", "f32"]),
                    family=rng.choice(["full", "full", "rankdef", "repeated", "identity_multiple", "mixed_batch"]),
                    kappa=rng.choice([2.0, 20.0, 1e3]), init=rng.choice(["supplied1", "supplied1", "supplied3", "random"]),
-                   max_iter=rng.randint(1, n + 2), seed=rng.randrange(1 << 30), consumer=rng.choice([None, None, "root", "root_inv", "diag"]))
+                   max_iter=rng.randint(1, n + 2), seed=rng.randrange(1 << 30), consumer=rng.choice([None, None, "root", "root_inv", "diag"]),
+                   # overall magnitude of the matrix (the consumers' jitter is relative to T; judged for well separated full-rank spectra)
+                   matscale=rng.choice([1.0, 1.0, 1.0, 1e-4, 1e-5, 1e2]))
 
 
 def make_matrix(case, g):
@@ -138,6 +140,8 @@ def run_case(case, ctx):
     g = torch.Generator().manual_seed(case["seed"])
     n, batch = case["n"], case["batch"]
     A64 = make_matrix(case, g)
+    ms = case.get("matscale", 1.0) if (case.get("consumer") and case["family"] == "full" and case["kappa"] <= 20.0) else 1.0
+    A64 = A64 * ms
     A = A64.to(dt)
     A64 = A.to(torch.float64)
     scale = float(torch.linalg.matrix_norm(A64, ord=2).max()) + 1e-300
@@ -151,7 +155,7 @@ def run_case(case, ctx):
     brel = "lt_n" if case["max_iter"] < n else ("eq_n" if case["max_iter"] == n else "gt_n")
     kb = f"{fam}|{case['init']}|{brel}|{case['dtype']}|b{len(batch)}"
     tags = {"family:" + fam} | ({"mixed_krylov_dims"} if mixed else set())
-    info = {case["dtype"], f"n{n}", f"max_iter{case['max_iter']}", case["init"]} | ({"batched"} if batch else set())
+    info = {case["dtype"], f"n{n}", f"max_iter{case['max_iter']}", case["init"]} | ({"batched"} if batch else set()) | ({f"matscale{ms:g}"} if ms != 1.0 else set())
     kw = dict(cls="lanczos_tridiag", path=fam, tags=tags, info=info)
     tol = (1e-8 if dt == torch.float64 else 1e-2)
     ctx.stat("runs")
